@@ -1,8 +1,8 @@
 (** Kernels/PathResolve.v — model of template-name resolution in the file-system
     and package loaders (C13).
 
-    Transcribed from (line numbers of the tree with the three C13 [fix:] commits
-    of /verif/proposed_fixes/C13 applied):
+    Transcribed from (the tree with the four C13 [fix:] commits of
+    /verif/proposed_fixes/C13 applied; line numbers as of the first three):
 
       liquid2/builtin/loaders/file_system_loader.py:45-75   FileSystemLoader.resolve_path
       liquid2/builtin/loaders/file_system_loader.py:77-96   _read, get_source (get_source_async
@@ -176,8 +176,13 @@ Definition joinpath (a b : ppath) : ppath :=
 
 Definition filesys := ppath -> option N.
 
-(** [Path.is_file()] (False also for ENOENT, ENOTDIR, ELOOP, embedded NUL,
-    unencodable names). *)
+(** The probe of a candidate path,
+      try: source_path.is_file()  except OSError: <not here>
+    [Path.is_file()] itself is False for ENOENT, ENOTDIR, EBADF, ELOOP, an
+    embedded NUL and unencodable names; every other OSError it lets through
+    (ENAMETOOLONG for a component over NAME_MAX or a path over PATH_MAX, EACCES
+    for a directory that may not be searched) is caught by the loaders (fix 0004)
+    and also means "no regular file here": [fs p = None]. *)
 Definition is_file (fs : filesys) (p : ppath) : bool :=
   match fs p with Some _ => true | None => false end.
 
@@ -187,7 +192,8 @@ Definition not_found {A} : res A := LErr TemplateNotFoundError None.
 Definition has_pardir (p : ppath) : bool := mem_str dotdot (p_parts p).
 
 (** [for path in search_path: source_path = path.joinpath(tp);
-     if source_path.is_file(): return source_path] ... raise TemplateNotFoundError *)
+     try: if source_path.is_file(): return source_path
+     except OSError: continue] ... raise TemplateNotFoundError *)
 Fixpoint first_file (fs : filesys) (roots : list ppath) (join : ppath -> ppath) : res ppath :=
   match roots with
   | [] => not_found
